@@ -185,7 +185,7 @@ func c07PkLen(r *vhRng, mask int) int {
 }
 
 func c07Hash(r *vhRng) []byte {
-	switch r.Intn(16) {
+	switch r.Intn(60) {
 	case 0:
 		return make([]byte, 32)
 	case 1:
